@@ -404,5 +404,25 @@ impl ExprValue {
 //@ - (match num2(*args) { Some(p) => is_num(r, b2r(p.0 != 0real || p.1 != 0real)), None => r is Err })     @@C14.fn.or
 //@end
 
+// ------------------------------------------------------------------------------ random(): arity and "advances exactly once"
+/// ghost view of the generator: how many values have been drawn
+pub struct RngState { pub draws: Ghost<nat>, pub rest: RngRest }
+#[verifier::external_body] pub struct RngRest { _p: u8 }
+/// R-abstract: `eval_state.context.get_rng().borrow_mut().random::<f32>()`
+#[verifier::external_body]
+pub fn next_random(rng: &mut RngState) -> (r: R32) ensures final(rng).draws@ == old(rng).draws@ + 1 { unimplemented!() }
+//@item src/functions.rs :: fn eval_function
+//@ fragment-name arm_random
+//@ fragment-inner
+//@ fragment-from <<<        Function::Random => {>>>
+//@ fragment-to <<<\n        }\n        Function::RandInt => >>>
+//@ fragment-head <<<fn arm_random(args: &ExprValue, rng: &mut RngState) -> Result<ExprValue> {\n    let e = {>>>
+//@ fragment-tail <<<    };\n    Ok(e.into())\n}>>>
+//@ replace[R-abstract] <<<eval_state.context.get_rng().borrow_mut().random::<f32>()>>> => <<<next_random(rng)>>>
+//@ ensures
+//@ - !(*args is List && args->List_0@.len() == 0) ==> r is Err && final(rng).draws@ == old(rng).draws@     @@C14.fn.random.wrong_arity_is_error
+//@ - (*args is List && args->List_0@.len() == 0) ==> r is Ok && r->Ok_0 is Number && final(rng).draws@ == old(rng).draws@ + 1     @@C14.rng.once
+//@end
+
 } // verus!
 fn main() {}
